@@ -199,6 +199,49 @@ def regSeqSlots (ops : List ROp) (toks : List String) : Option (List RSlot) :=
   if ops.length != toks.length then none
   else (ops.zip toks).mapM (fun p => (parseRRes p.2).map (fun r => (⟨0, true, some p.1, some (p.1, r)⟩ : RSlot)))
 
+/-- late-unregister race: `c19u bases k … old <ext> new <ext> third <ext> round j`;
+obs `S=<res>` then `U1=ok U2=ok R=<res>` in order of return, then `L=… R3=… L2=…` -/
+structure URace where
+  old : PM
+  nw : PM
+  third : PM
+
+def parseURace (ts : List String) : Option URace :=
+  match ts with
+  | "c19u" :: "bases" :: ts => do
+    let (_, ts) ← takeCounted ts
+    match ts with
+    | "old" :: a :: "new" :: b :: "third" :: c :: _ => do pure ⟨← parseExt a, ← parseExt b, ← parseExt c⟩
+    | _ => none
+  | _ => none
+
+def uraceSlots (u : URace) (toks : List String) : Option (List RSlot) := do
+  let d := u.old.fullDomain
+  let op (name : String) : Option (Nat × ROp) :=
+    if name == "U1" then some (0, .unregId u.old.ID) else if name == "U2" then some (1, .unregId u.old.ID)
+    else if name == "R" then some (2, .register u.nw) else none
+  match toks with
+  | s :: a :: b :: c :: l :: r3 :: l2 :: [] => do
+    let sres ← match s.splitOn "=" with | ["S", r] => parseRRes r | _ => none
+    let setup : RSlot := ⟨4, true, some (.register u.old), some (.register u.old, sres)⟩
+    let invs : List RSlot := [⟨0, true, some (.unregId u.old.ID), none⟩, ⟨1, true, some (.unregId u.old.ID), none⟩,
+                              ⟨2, true, some (.register u.nw), none⟩]
+    let rets ← [a, b, c].mapM (fun tok =>
+      match tok.splitOn "=" with
+      | [nm, r] => do
+        let (t, o) ← op nm
+        let res ← parseRRes r
+        pure (⟨t, true, none, some (o, res)⟩ : RSlot)
+      | _ => none)
+    -- each of the three must have returned exactly once
+    if (rets.map (·.tid)).eraseDups.length != 3 then none else
+    let seq ← [(l, "L", ROp.lookup (d ++ ":443")), (r3, "R3", ROp.register u.third), (l2, "L2", ROp.lookup d)].mapM (fun p =>
+      match p.1.splitOn "=" with
+      | [nm, r] => if nm != p.2.1 then none else (parseRRes r).map (fun res => (⟨3, true, some p.2.2, some (p.2.2, res)⟩ : RSlot))
+      | _ => none)
+    pure (setup :: invs ++ rets ++ seq)
+  | _ => none
+
 structure RaceCase where
   pms : List PM
 
@@ -470,6 +513,14 @@ def runHolds (caseToks obsToks : List String) : String :=
     match parseRegSeq caseToks with
     | some i =>
       match regSeqSlots (i.threads.headD []) obsToks with
+      | some sl => boolStr (holdsReg sl)
+      | none => "false"
+    | none => "false"
+  else
+  if caseToks.head? == some "c19u" then
+    match parseURace caseToks with
+    | some u =>
+      match uraceSlots u obsToks with
       | some sl => boolStr (holdsReg sl)
       | none => "false"
     | none => "false"
